@@ -499,10 +499,10 @@ def parseTitle (ts : TS) : Except Err (String × TS) :=
       | some title, .ok ts2 => if ts2.cur == some ";" then .ok (title, ts2) else .error .parse
       | _, _ => .error .parse
 
-/-- body of the `while token != ';'` loop of `_parse_link_statement`; `tok` is the loop variable -/
-def linkLoop (ts : TS) (tok : Option String) (taxa : Option String) : Except Err (Option String × TS) :=
-  match tok with
-  | none => .error .parse            -- end of stream inside LINK (the code would spin)
+/-- the `while token != ';'` loop of `_parse_link_statement`; the loop variable is the (upper-cased) current token -/
+def linkLoop (ts : TS) (taxa : Option String) : Except Err (Option String × TS) :=
+  match ts.cur with
+  | none => .error .parse
   | some t =>
     if t == ";" then .ok (taxa, ts)
     else if t == "TAXA" || t == "CHARACTERS" then
@@ -511,21 +511,18 @@ def linkLoop (ts : TS) (tok : Option String) (taxa : Option String) : Except Err
         if ts1.cur != some "=" then .error .parse
         else
           let ts2 := ts1.next
-          let ts3 := ts2.next
-          -- a CHARACTERS clause directly after a TAXA clause is handled in the same iteration by the code;
-          -- re-entering the loop with the raw token is equivalent
-          linkLoop ts3 ts3.cur (if t == "TAXA" then ts2.cur else taxa)
-      else .error .parse
-    else .error .stuck                -- `LINK FOO = x;`: the code never advances
+          linkLoop ts2.nextU (if t == "TAXA" then ts2.cur else taxa)
+      else .error .parse              -- one of the three `require_next_token` calls meets the end of the stream
+    else if h : ts.rest = [] then .error .parse
+    else linkLoop ts.nextU taxa       -- link to a block type that is not tracked: skipped
 termination_by ts.rest.length
 decreasing_by
-  simp [TS.next_rest]
-  omega
+  · simp [TS.next_rest, TS.nextU_rest]; omega
+  · exact TS.nextU_lt ts h
 
 /-- `_parse_link_statement().get("taxa")` -/
 def parseLink (ts : TS) : Except Err (Option String × TS) :=
-  let ts1 := ts.nextU
-  linkLoop ts1 ts1.cur none
+  if ts.rest = [] then .error .parse else linkLoop ts.nextU none
 
 /-- `_parse_dimensions_statement` -/
 def dimLoop (ts : TS) (ntax : Option Nat) : Except Err (Option Nat × TS) :=
@@ -565,11 +562,11 @@ def taxlabelsLoop (cfg : Cfg) (ts : TS) (ns : List String) (ntax : Option Nat) :
       match nsFind label ns with
       | some _ => taxlabelsLoop cfg ts.next.clear ns ntax
       | none =>
-        match ntax with
-        | none => .error .value       -- `len(ns) >= None`
-        | some n =>
-          if ns.length ≥ n && !cfg.attached then .error .parse
-          else taxlabelsLoop cfg ts.next.clear (ns ++ [label]) ntax
+        let limited := match ntax with
+          | none => false             -- without a declared NTAX the number of labels is not limited
+          | some n => decide (ns.length ≥ n) && !cfg.attached
+        if limited then .error .parse
+        else taxlabelsLoop cfg ts.next.clear (ns ++ [label]) ntax
 termination_by ts.rest.length
 decreasing_by
   all_goals simp [TS.clear]; exact TS.next_lt ts h
@@ -632,6 +629,8 @@ def consumeToEndOfBlock (ts : TS) (token : Option String) : TS :=
 /-- `TaxonNamespace.require_taxon(label=…)` as used by TRANSLATE: the namespace is locked by the mapper
     unless no NTAX was seen (`is_mutable = True` override) -/
 def translateLoop (c : Core) (mp : Mapper) : Except Err (Core × Mapper) :=
+  if c.ts.rest.length < 2 then .error .parse      -- `require_next_token` for the token or its label fails
+  else
   let ts1 := c.ts.next
   match ts1.cur with
   | none => .error .parse
@@ -661,9 +660,11 @@ def translateLoop (c : Core) (mp : Mapper) : Except Err (Core × Mapper) :=
             else .error .stuck
 termination_by c.ts.rest.length
 
-/-- `_parse_translate_statement` with a fresh mapper (the only way both front ends call it) -/
-def parseTranslate (c : Core) : Except Err (Core × Mapper) :=
-  translateLoop c (Mapper.new c.ns true)
+/-- `_parse_translate_statement(taxon_namespace, taxon_symbol_mapper)`: the TREES block's mapper is reused when it
+    exists (a second TRANSLATE, or a TRANSLATE after a TREE, adds to the tokens already known); both front ends call
+    it this way (the yielder after `fixes/C13-yielder-translate-mapper.patch`) -/
+def parseTranslate (c : Core) (mp : Option Mapper) : Except Err (Core × Mapper) :=
+  translateLoop c (match mp with | some m => m | none => Mapper.new c.ns true)
 
 /-- `NexusReader._parse_tree_statement` (positioned right after TREE) -/
 def nexusTreeStmt (cfg : Cfg) (c : Core) (mp : Mapper) : Except Err (Tree × Core × Mapper) :=
@@ -723,7 +724,7 @@ def treesStepR {σ} (cfg : Cfg) (S : Sink σ) (c : Core) (v : BlockVars) (acc : 
     match (if v.haveNs then .ok c1 else getNamespace cfg c1 v.link) with
     | .error e => .error e
     | .ok c2 =>
-      match parseTranslate c2 with
+      match parseTranslate c2 v.mapper with
       | .error e => .error e
       | .ok (c3, mp) => .ok (c3, { v with haveNs := true, mapper := some mp, tok := some "" }, acc)
   else if ts1.cur == some "TREE" then
@@ -835,7 +836,7 @@ def treesStepY (cfg : Cfg) (c : Core) (v : BlockVars) (out : List Tree) : Except
     match (if v.haveNs then .ok c1 else getNamespace cfg c1 v.link) with
     | .error e => .error e
     | .ok c2 =>
-      match parseTranslate c2 with
+      match parseTranslate c2 v.mapper with
       | .error e => .error e
       | .ok (c3, mp) => .ok (c3, { v with haveNs := true, mapper := some mp, tok := some "" }, out)
   else if ts1.cur == some "TREE" then
